@@ -636,6 +636,7 @@ def run_histories(ctx, exe, defs, lines, label, env=None):
     t0 = time.time()
     outs, crashes = run_sharded(exe, lines, prefix=defs, env=env)
     nbad = nontriv = nfresh = nnotrun = 0
+    seen_hang = False
     for line, out in zip(lines, outs):
         if out.startswith('OK'):
             t = out.split()
@@ -649,14 +650,17 @@ def run_histories(ctx, exe, defs, lines, label, env=None):
             nnotrun += 1
             continue
         nbad += 1
-        if nbad > 3:
+        if nbad > 3 and not (out == 'HANG' and not seen_hang):      # the first three failures and the first hang are examined
             continue
+        seen_hang = seen_hang or out == 'HANG'
         extra = ''
         c = [c for c in crashes if c[0] == line]
         late = DEADLINE is not None and time.time() > DEADLINE
         if out in ('CRASH', 'HANG'):
             extra = ('rc=%s %s' % (c[0][1], c[0][2][-600:])) if c else ''
             fl = None if late else crash_on_fresh_object(exe, defs, line, env)
+            if late:
+                extra += ' (comparison with a fresh object skipped: the time budget of the tier is used up)'
             if fl is not None:
                 nfresh += 1
                 ctx.count('failures_also_on_fresh_object', 1)
